@@ -227,6 +227,7 @@ type fnOut struct {
 	Keys    []string
 	Bool    bool
 	val     any
+	ret     []byte // the slice the codec returned (kept by the simulated caller)
 }
 
 func (o *fnOut) key() string {
@@ -280,6 +281,7 @@ func callFork(c *FnCall) (o fnOut) {
 				b, err = fj.MarshalIndent(forkV, c.Prefix, c.Indent)
 			}
 			o.Out, o.Err = string(b), errRender(err)
+			o.ret = b
 		case FValid:
 			o.Bool = fj.Valid(c.Text)
 		case FCompact:
@@ -379,6 +381,7 @@ func pristineCall(c *FnCall) fnOut {
 	w.EndCall(o.Err != "", 0)
 	simrt.Uninstall()
 	o.val = nil
+	o.ret = nil
 	pristineFn[k] = o
 	return o
 }
@@ -431,6 +434,14 @@ func runFn(s *Scen, res *Result) {
 		fj.Marshal(v)
 		w.EndCall(false, 0)
 	}
+	type kept struct {
+		id   uint32
+		name string
+		ret  []byte
+		snap string
+		bad  bool
+	}
+	var keptResults []kept
 	for i := range s.FnCalls {
 		c := &s.FnCalls[i]
 		name := fNames[c.Fn]
@@ -451,6 +462,17 @@ func runFn(s *Scen, res *Result) {
 			c.Tape = src.Tape
 		}
 		res.Calls++
+		// results handed out earlier must still hold what they held when returned
+		for k := range keptResults {
+			kr := &keptResults[k]
+			if !kr.bad && string(kr.ret) != kr.snap {
+				kr.bad = true
+				res.viol("result-clobbered", "codec|fn|"+kr.name+"|result-clobbered", fmt.Sprintf("the slice returned by call #%d %s held %q and holds %q after call #%d %s: the result aliases pooled state", kr.id, kr.name, trunc([]byte(kr.snap)), trunc(kr.ret), c.ID, name), int(kr.id))
+			}
+		}
+		if len(got.ret) > 0 {
+			keptResults = append(keptResults, kept{id: c.ID, name: name, ret: got.ret, snap: got.Out})
+		}
 		if got.Skipped {
 			res.Log = append(res.Log, name+" skipped")
 			continue
